@@ -28,10 +28,8 @@ TsOf(c) == IF "ts" \in DOMAIN c THEN c.ts ELSE TS
 
 \* TLC wraps printed tuples longer than 80 characters, so verdict lines carry index codes; the legend
 \* (index -> name) is printed once per run.
-DevList == <<"DevInputValueNotForwarded", "DevOverlapMissesConflicts", "DevOverlapFalseConflict",
-             "DevInputObjectNonObjectAccepted", "DevEnumAcceptsString", "DevUnsuppliedVarSkipsArgCheck",
-             "DevDuplicateInputFieldsCollapsed", "DevTypenameNotVisited", "DevNoSingleRootFieldRule",
-             "DevVarDefDirectivesNotVisited">>
+DevList == <<"DevInputValueNotForwarded", "DevOverlapMissesConflicts", "DevEnumAcceptsString", "DevUnsuppliedVarSkipsArgCheck",
+             "DevDuplicateInputFieldsCollapsed", "DevTypenameNotVisited", "DevNoSingleRootFieldRule", "DevVarDefDirectivesNotVisited">>
 ClauseList == <<"LoneAnonymousOperation", "UniqueOperationNames", "SingleRootFieldSubscription.single",
                 "SingleRootFieldSubscription.introspection", "FieldsOnCorrectType", "FieldsInSetCanMerge",
                 "ScalarLeafs.selectionOnLeaf", "ScalarLeafs.noSelectionOnComposite", "KnownArgumentNames",
